@@ -1992,6 +1992,7 @@ func (ls *LState) Resume(th *LState, fn *LFunction, args ...LValue) (ResumeState
 	if ls.Status(th) == "normal" {
 		return ResumeError, newApiErrorS(ApiErrorRun, "can not resume a non-suspended thread"), nil
 	}
+	th.wrapped = false
 	th.Parent = ls
 	ls.G.CurrentThread = th
 	var setup func()
